@@ -27,6 +27,14 @@ CHECKS.update({
          _SS + "Oracle: Search on every retained key returns (v_{i-1}|nil, v_i, v_{i+1}|nil) in every option combination and instance.", _NOTE, "5.C09"),
  "C10": ("model_checking", "small-scope exhaustive enumeration of tries x query universe; totality and cross-API consistency relations",
          _SS + "Every query of the query universe in every mode, with and without values. Oracle: no panic; hit value was supplied; Get/GetID/Search-exact agree; Get hit implies RangeGet hit with the same value.", _NOTE, "5.C10"),
+ "C13": ("model_checking", "small-scope exhaustive enumeration; the four prefix configurations are built from each input and compared pairwise on the whole query universe",
+         _SS + "Oracle over the ordered pairs (both,inner),(both,leaf),(inner,none),(leaf,none),(both,none) with equal DedupValue: found_more => found_less with the same value; both-found => retained; all modes identical on retained keys.", _NOTE, "5.C13"),
+ "C14": ("model_checking", "small-scope exhaustive enumeration with lane-alphabet integer values; typed getters compared with Get on the whole query universe",
+         _SS + "Encoders I8/I16/I32/I64 with values over the lane alphabet {00,01,7f,80,ff}^width (min, max, -1, 0, 1 first; table rotated on small sets). Oracle: GetIxx(q) = (Get(q), found) for every query, (0,false) when not found.", _NOTE, "5.C14"),
+ "C18": ("model_checking", "small-scope exhaustive input enumeration; Stat invariants checked on every trie and instance",
+         _SS + "Oracle: KeyCnt = |retained|, level entries total = inner + leaf, monotone, last level = totals, empty (0,0), single key (1,1), loaded Stat deep-equals fresh Stat.", _NOTE, "5.C18"),
+ "C19": ("model_checking", "small-scope exhaustive input enumeration incl. short-table scaffolds of every reachable size; rendering parsed and compared with the reference",
+         _SS + "Oracle: String() does not panic; #id tokens are exactly {0..NodeCnt-1} each once; =value suffixes top to bottom equal the retained values in key order; loaded instance renders identically.", _NOTE, "5.C19"),
 })
 NOT_YET = {}
 
